@@ -109,6 +109,21 @@ static const char *frozen_state(void)
 	return ret;
 }
 
+
+/* "ok" while every buffer's reference count equals the number of handles holding it */
+static const char *refs_state(void)
+{
+	int i, k;
+	for (i = 0; i < nh; i++) {
+		MPT_STRUCT(buffer) *b = arr[i]._buf;
+		long n = 0;
+		if (!b) continue;
+		for (k = 0; k < nh; k++) if (arr[k]._buf == b) ++n;
+		if ((long) MPT_baseaddr(bufferData, b, buf)->_ref._val != n) return "bad";
+	}
+	return "ok";
+}
+
 static void emit_all(const char *ret, const void *out, size_t outlen)
 {
 	int i;
@@ -134,6 +149,7 @@ static void emit_all(const char *ret, const void *out, size_t outlen)
 	for (i = 0; i < nh; i++) j_item_str(name_of(arr[i]._buf));
 	j_arr_close();
 	j_str("frozen", fr);
+	j_str("refok", refs_state());
 }
 static void emit_dbg(size_t size0, size_t used0, long long rc)
 {
